@@ -7,6 +7,11 @@ Families:
         constraint ; refresh/copy/*=dict/**=/clear ; constraint on PCBO/PCSO
   rnd   random histories of length <= 12 (with a bias towards cancelling what was just stored); coefficients also as
         numpy.int64/float64 scalars and bool, labels from Labels.STYLES_X
+  mag   coefficients of extreme magnitude (tiny: 2^-60, 3*2^-62, 1/10^18 ...; huge: 2^60, 5*2^58, 10^18+1; models scaled in
+        place by 2^-55 / 2^55) in fixed short histories around refresh / clear / copy / round / cancellation on all ten types
+        and in random histories over the whole edit language; every history is run with exact numbers (int / Fraction) and,
+        where IEEE double arithmetic is provably exact on it (`float_safe`: all values of the history stay integer multiples
+        of one power of two below 2^52 times it), also with Python floats and numpy.float64 scalars (vstyle float / npf)
 Self-aliased in-place operands (`H -= H`, `H += H`, `H *= H`, `H.update(H)`, control `H -= H.copy()`) are edits of the
 history language on all ten types (exhaustive pairs, constraint ; op ; constraint, random).
 After every edit the live object's terms (with dict order), mapping, reverse_mapping, variables, degree,
@@ -31,7 +36,9 @@ RULE = ("edit histories on a fresh model of each of the ten types: all histories
         "self-aliased in-place operation (H -= H, H += H, H *= H, H.update(H), control H -= H.copy()) paired "
         "in both orders with the in-place edits and with each other; targeted histories (cancel the newest label "
         "before a reducing conversion; constraint ; copy-like ; constraint); random histories of length <=12 over "
-        "everything; realised with int/str/tuple/mixed labels; non-trivial = at some step a cached quantity is "
+        "everything; the same edits with coefficients of extreme magnitude (2^-60 .. 2^60, 1/10^18, 10^18+1, in-place "
+        "scaling by 2^-55) as exact numbers and, where IEEE arithmetic is exact on the history, as float / numpy.float64 "
+        "(mag); realised with int/str/tuple/mixed labels; non-trivial = at some step a cached quantity is "
         "stale (variables/degree/count differ from the exact ones) or the history contains a dict product, a "
         "copy-like operation, refresh or a constraint after another edit")
 ASSUMPTIONS = ["a constructor of another class (PUBO(pcbo), PCSO(pcbo), PCBO(PUBO(pcbo))) and update() with an object of "
@@ -41,6 +48,10 @@ ASSUMPTIONS = ["a constructor of another class (PUBO(pcbo), PCSO(pcbo), PCBO(PUB
                "argument breaks the mapping clause by the caller's own input; set_mapping is not among the property's edits)",
                "dict/mapping order is not compared once a model holds more than ten constraint ancillas ('__a10' < '__a9' as strings)",
                "user keys never contain labels of the reserved ancilla form '__a<k>'",
+               "float / numpy.float64 coefficients are used only on histories on which IEEE double arithmetic is exact "
+               "(small dyadic values, or extreme-magnitude values whose history keeps every value an integer multiple of one "
+               "power of two below 2^52 times it); on the extreme-magnitude float histories the reduced forms (whose default "
+               "penalty 1 + |v| rounds) are not computed — the same histories run with exact Fractions check them",
                "label sets of reduced forms are compared as: model labels exactly, ancilla labels a contiguous "
                "range from the predicted start (the number of ancillas is C01's subject)"]
 
@@ -327,6 +338,251 @@ def rnd_history(rng, kind):
     return hist
 
 
+# ------------------------------------------------------------------ extreme magnitudes
+
+MAG_DYADIC = ["1/1152921504606846976", "3/4611686018427387904", "1/36028797018963968", "1152921504606846976",
+              "1441151880758558720", "1/1267650600228229401496703205376"]   # 2^-60, 3*2^-62, 2^-55, 2^60, 5*2^58, 2^-100
+MAG_OTHER = ["1/1000000000000000000", "1000000000000000001", "7/10000000000000000"]      # 1/10^18, 10^18+1, 7/10^16
+MAG_FACTORS = ["1/36028797018963968", "36028797018963968", "1/1152921504606846976"]      # in-place scaling: 2^-55, 2^55, 2^-60
+
+
+def _v2(f):
+    """2-adic valuation of a non-zero Fraction"""
+    n, d, e = abs(f.numerator), f.denominator, 0
+    while n % 2 == 0:
+        n //= 2; e += 1
+    while d % 2 == 0:
+        d //= 2; e -= 1
+    return e if d == 1 else None
+
+
+def _pow2(f):
+    return f != 0 and abs(f).numerator & (abs(f).numerator - 1) == 0 and abs(f).denominator & (abs(f).denominator - 1) == 0
+
+
+class _Unsafe(Exception):
+    pass
+
+
+def _lit(st, vals):
+    """literals enter the model additively: the grid gets finer, the bound on every (partial) sum grows"""
+    G, A = st
+    for v in vals:
+        f = Fraction(v)
+        if f == 0:
+            continue
+        e = _v2(f)
+        if e is None or Fraction(float(f)) != f:
+            raise _Unsafe()
+        G = e if G is None else min(G, e)
+        A += abs(f)
+    return G, A
+
+
+def _mulpoly(st, q, keep_old):
+    G, A = st
+    Gq, Aq = _lit((None, Fraction(0)), [v for _, v in q])
+    if Aq == 0 or A == 0:
+        return (G, A) if keep_old else (None, Fraction(0))
+    return (min(G, G + Gq) if keep_old else G + Gq), (max(A, A * Aq) if keep_old else A * Aq)
+
+
+def _abs_step(st, e):
+    """abstract effect of one edit on (G, A): every coefficient the real code computes while executing the edit (partial sums
+    included) is an integer multiple of 2^G and at most A in magnitude.  Raises _Unsafe where that cannot be guaranteed."""
+    G, A = st
+    t = e["t"]
+    if t == "set":
+        return _lit(st, [e["v"]])
+    if t == "aug":
+        d = Fraction(e["d"])
+        if e["a"] in ("add", "sub"):
+            return _lit(st, [d])
+        if d == 0:
+            return st
+        if e["a"] == "div":
+            if not _pow2(d):
+                raise _Unsafe()
+            d = 1 / d
+        ev = _v2(d)
+        if ev is None or Fraction(float(d)) != d:
+            raise _Unsafe()
+        return (None if G is None else G + min(0, ev)), A * max(1, abs(d))
+    if t in ("iaddD", "isubD", "update"):
+        return _lit(st, [v for _, v in e["q"]])
+    if t in ("iaddC", "isubC", "rsubC"):
+        return _lit(st, [e["c"]])
+    if t == "imulD":
+        return _mulpoly(st, e["q"], True)          # may raise half way (degree): the old grid stays in the bound
+    if t in ("imulC", "idivC"):
+        c = Fraction(e["c"])
+        if c == 0:
+            return st                              # *= 0 empties the model; /= 0 raises
+        if t == "idivC":
+            if not _pow2(c):
+                raise _Unsafe()
+            c = 1 / c
+        ev = _v2(c)
+        if ev is None or Fraction(float(c)) != c:
+            raise _Unsafe()
+        return (None if G is None else G + ev), A * abs(c)
+    if t in ("ipow", "imulSelf"):
+        ex = 2 if t == "imulSelf" else e["e"]
+        if ex <= 1 or G is None:
+            return st
+        return min(G, G * ex), max(A, A ** ex)
+    if t in ("clear", "refresh", "copy", "subs", "remap", "pos", "neg", "cast", "updateSelf", "isubSelf", "isubCopy"):
+        return st
+    if t == "iaddSelf":
+        return G, 2 * A
+    if t == "round":
+        if A >= 2 ** 50:
+            raise _Unsafe()                        # round(float, -1) goes through a decimal string
+        return (None if G is None else min(G, 0)), 2 * A
+    if t == "bin":
+        a = e["a"]
+        m = {"addC": "iaddC", "subC": "isubC", "mulC": "imulC", "divC": "idivC", "addD": "iaddD", "subD": "isubD",
+             "mulD": "imulD"}
+        if a["t"] == "pow":
+            return _abs_step(st, {"t": "ipow", "e": a["e"]})
+        return _abs_step(st, dict(a, t=m[a["t"]]))
+    if t == "updateM":
+        sub = (None, Fraction(0))
+        for x in e["arg"]["hist"]:
+            sub = _abs_step(sub, x)
+        G2, A2 = sub
+        return (G if G2 is None else G2 if G is None else min(G, G2)), A + A2
+    raise _Unsafe()                                # constraints: lam * (P + slack)^2 mixes scales
+
+
+def safe_prefix(hist):
+    """length of the longest prefix of the history on which IEEE double arithmetic is exact (see _abs_step): every value is
+    an integer multiple of 2^G below 2^52 * 2^G, far from overflow and underflow"""
+    st = (None, Fraction(0))
+    for i, e in enumerate(hist):
+        try:
+            st = _abs_step(st, e)
+        except _Unsafe:
+            return i
+        G, A = st
+        if G is not None and A > 0 and not (-900 < G < 900 and A < Fraction(2) ** 900 and A < Fraction(2) ** (G + 52)):
+            return i
+    return len(hist)
+
+
+def float_safe(case):
+    return safe_prefix(case["hist"]) == len(case["hist"]) and not any(zero_div(e) for e in case["hist"])
+
+
+def _sc(v, s):
+    return fs(Fraction(v) * s)
+
+
+def rescale(e, s, rng, exact):
+    """the edit with its additive literals multiplied by the scale `s` (multiplicative scalars keep their size, or become
+    one of MAG_FACTORS); returns (edit, new scale)"""
+    t = e["t"]
+    e = dict(e)
+    if t == "set":
+        e["v"] = _sc(e["v"], s)
+    elif t == "aug" and e["a"] in ("add", "sub"):
+        e["d"] = _sc(e["d"], s)
+    elif t in ("iaddD", "isubD", "update"):
+        e["q"] = [[k, _sc(v, s)] for k, v in e["q"]]
+    elif t in ("iaddC", "isubC", "rsubC"):
+        e["c"] = _sc(e["c"], s)
+    elif t in ("imulC", "idivC") and rng.random() < 0.4:
+        c = Fraction(rng.choice(MAG_FACTORS))
+        e["c"] = fs(c)
+        s = s * c if t == "imulC" else s / c
+    elif t == "cons" and exact:
+        e["lam"] = _sc(e["lam"], s)
+    elif t == "bin":
+        a = dict(e["a"])
+        if a["t"] in ("addC", "subC"):
+            a["c"] = _sc(a["c"], s)
+        elif a["t"] in ("addD", "subD"):
+            a["q"] = [[k, _sc(v, s)] for k, v in a["q"]]
+        elif a["t"] == "mulC" and rng.random() < 0.3:
+            c = Fraction(rng.choice(MAG_FACTORS))
+            a["c"] = fs(c)
+            s = s * c
+        e["a"] = a
+    elif t == "updateM":
+        sub = []
+        for x in e["arg"]["hist"]:
+            x2, _ = rescale(x, s, rng, exact)
+            sub.append(x2)
+        e["arg"] = dict(e["arg"], hist=sub)
+    return e, s
+
+
+def mag_fixed(kind):
+    """short histories around the operations that rebuild or scale a model; `s` is substituted by each scale"""
+    deg2 = kind in ("QUBO", "QUSO", "QUBOMatrix", "QUSOMatrix")
+    hi = [0, 1] if deg2 else [1, 2, 3]
+    return [
+        lambda s: [S([0], _sc(1, s)), S(hi, _sc(2, s)), {"t": "refresh"}, A([0], "add", _sc(1, s))],
+        lambda s: [S([0], "1"), S(hi, "3/2"), {"t": "imulC", "c": fs(s)}, {"t": "refresh"}, {"t": "iaddC", "c": _sc(3, s)}],
+        lambda s: [{"t": "iaddD", "q": [[[0], _sc(1, s)], [hi, _sc(-1, s)]]}, {"t": "copy"}, A([0], "sub", _sc(1, s)),
+                   {"t": "refresh"}],
+        lambda s: [S([2], _sc(1, s)), {"t": "clear"}, S([1], _sc(-3, s)), {"t": "refresh"}],
+        lambda s: [S(hi, _sc(1, s)), {"t": "idivC", "c": "2"}, {"t": "imulC", "c": "4"}, {"t": "neg"}, {"t": "refresh"}],
+        lambda s: [S([2], _sc(1, s)), {"t": "round", "nd": None}, S([0], _sc(5, s)), {"t": "refresh"}],
+        lambda s: [{"t": "update", "q": [[[0], _sc(1, s)], [[3], "0"]]}, {"t": "isubD", "q": [[[0], _sc(1, s)]]},
+                   S([1], _sc(2, s)), {"t": "refresh"}],
+        lambda s: [S([0], _sc(1, s)), {"t": "imulD", "q": [[[1], "1"], [[], "1"]]}, {"t": "refresh"},
+                   B({"t": "mulC", "c": "2"}, refl=True)],
+        lambda s: [S([0], _sc(3, s)), {"t": "cast", "kind": kind}, {"t": "idivC", "c": fs(s)}, {"t": "refresh"}],
+        lambda s: [S([0], _sc(1, s)), S([1], _sc(1, s)), {"t": "iaddSelf"}, {"t": "updateSelf"}, {"t": "refresh"},
+                   {"t": "isubSelf"}, {"t": "refresh"}],
+    ]
+
+
+def mag_cases(ctx, nrand):
+    rng = ctx.rng
+    out, i = [], 0
+    for kind in KINDS:
+        for s in MAG_DYADIC[:5] + MAG_OTHER[:2]:
+            for h in mag_fixed(kind):
+                hist = h(Fraction(s))
+                base = dict(kind=kind, hist=hist, style=STYLES[(i + ctx.seed) % len(STYLES)], mag=True, vstyle="frac")
+                out.append(base)
+                if s in MAG_DYADIC:
+                    c = dict(base, vstyle=("float", "npf")[i % 2], noconv=True)
+                    if float_safe(c):
+                        out.append(c)
+                i += 1
+    for j in range(nrand):
+        kind = KINDS[j % len(KINDS)]
+        exact = j % 2 == 0
+        s = Fraction(rng.choice(MAG_DYADIC + (MAG_OTHER if exact else [])))
+        hist, cur = [], kind
+        for e in rnd_history(rng, kind):
+            if not exact and e["t"] in ("cons", "ipow", "imulSelf"):
+                continue
+            # float paths of the library that no choice of number type avoids (they round next to extreme magnitudes):
+            # round() returns ints, which `/` turns into floats; PCSO constraints go through pubo_to_puso
+            if e["t"] == "round" or (e["t"] == "cons" and cur == "PCSO"):
+                continue
+            if e["t"] == "updateM" and e["arg"]["kind"] == "PCSO":
+                e = dict(e, arg=dict(e["arg"], hist=[x for x in e["arg"]["hist"] if x["t"] != "cons"]))
+            if e["t"] == "cast":
+                cur = e["kind"]
+            e, s = rescale(e, s, rng, exact)
+            hist.append(e)
+            if e["t"] in ("set", "aug", "iaddD", "imulC") and rng.random() < 0.3:
+                hist.append({"t": rng.choice(["refresh", "refresh", "copy", "clear"])})
+        c = dict(kind=kind, hist=hist, style=rng.choice(STYLES), mag=True, vstyle="frac")
+        if not exact:
+            c["hist"] = hist = hist[:safe_prefix(hist)]
+            if len(hist) < 2 or any(zero_div(e) for e in hist):
+                continue
+            c.update(vstyle=rng.choice(["float", "npf"]), noconv=True)
+        out.append(c)
+    return out
+
+
 # ------------------------------------------------------------------ implementation side
 
 _VS = ["plain"]
@@ -338,6 +594,14 @@ def num(s):
     f = Fraction(s)
     if _VS[0] == "bool" and f in (0, 1):
         return bool(f)
+    if _VS[0] == "frac":
+        return f                 # every number a Fraction: `v / 2`, `v / 4` of the conversions stay exact at any magnitude
+    if _VS[0] in ("float", "npf") and f.denominator & (f.denominator - 1) == 0 and Fraction(float(f)) == f:
+        # every (dyadic) number of the history is a float: Python float / numpy.float64 (a float subclass)
+        if _VS[0] == "npf":
+            import numpy as np
+            return np.float64(float(f))
+        return float(f)
     if _VS[0] == "np":
         import numpy as np
         if f.denominator == 1 and abs(f) < 2 ** 40:
@@ -573,10 +837,37 @@ def poly_value(D, x, spin_target=None):
 _conv_cache = {}
 
 
-def conv_outputs(H):
+def puso_float_exact(H, margin=False):
+    """`pubo_to_puso` multiplies every coefficient by the float 2.0**-len(key) and sums in floats (the only float path of the
+    four forms when the coefficients are Fractions): exact iff all of that stays on one power-of-two grid within 52 bits.
+    margin: the coefficients themselves are ints / floats, so `v / 2`, `v / 4` of qubo_to_quso and the default reduction
+    penalty 1 + |v| are float operations too."""
+    vals = [Fraction(v) for v in H.values()]
+    if not vals:
+        return True
+    es = [_v2(v) for v in vals]
+    if any(e is None for e in es) or any(Fraction(float(v)) != v for v in vals):
+        return False
+    G = min(es) - max(len(k) for k in H)
+    A = sum(abs(v) for v in vals)
+    if margin:
+        G, A = min(G, 0) - 4, 8 * (A + len(vals))
+    return -900 < G < 900 and A < Fraction(2) ** (G + 52)
+
+
+def conv_skip(H, kind):
+    """extreme magnitudes: which of the four forms run through inexact float arithmetic on this model (they are skipped)"""
+    if all(isinstance(v, Fraction) for v in H.values()):
+        return () if kind in SPIN or puso_float_exact(H) else ("to_puso",)
+    return () if puso_float_exact(H, margin=True) else ("to_pubo", "to_puso", "to_qubo", "to_quso")
+
+
+def conv_outputs(H, skip=()):
     """the four enumerated / reduced forms of the live object (or the exception raised), computed once"""
     outs = {}
     for conv in ("to_pubo", "to_puso", "to_qubo", "to_quso"):
+        if conv in skip:
+            continue
         try:
             outs[conv] = getattr(H, conv)()
         except Exception as ex:
@@ -591,14 +882,17 @@ def oracle_conv(H, kind, outs=None):
     tv = sorted(true_vars(H), key=repr)
     m, r, n = H.mapping, H.reverse_mapping, H.num_binary_variables
     key = (kind in SPIN, tuple(sorted(((tuple(sorted(map(repr, k))), fs(v)) for k, v in H.items()))),
-           tuple(sorted((repr(l), i) for l, i in m.items())), n, H.degree)
+           tuple(sorted((repr(l), i) for l, i in m.items())), n, H.degree,
+           tuple(sorted({type(v).__name__ for v in H.values()})), tuple(sorted(outs)) if outs is not None else None)
     if key in _conv_cache:
         return _conv_cache[key]
     res = None
     top = max(r, default=-1)
     src_spin = kind in SPIN
-    outs = outs or conv_outputs(H)
+    outs = conv_outputs(H) if outs is None else outs
     for conv in ("to_pubo", "to_puso", "to_qubo", "to_quso"):
+        if conv not in outs:
+            continue
         out = outs[conv]
         if isinstance(out, Exception):
             res = ("O5-" + conv + "-raises", "%s() raised %r" % (conv, out)); break
@@ -694,8 +988,9 @@ def run_impl(case, with_oracle=True):
             if bad:
                 fail = dict(step=idx, clause=bad[0], why=bad[1], edit=e, counter_dropped_by=drop, kind=kind)
     conv = None
-    if kind not in MATRIX:
-        outs = conv_outputs(H)
+    if kind not in MATRIX and not case.get("noconv"):
+        # extreme magnitudes (exact numbers): to_puso of a boolean model runs through floats (see puso_float_exact)
+        outs = conv_outputs(H, conv_skip(H, kind) if case.get("mag") else ())
         conv = conv_labels(outs)
         if with_oracle and fail is None:
             bad = oracle_conv(H, kind, outs)
@@ -978,6 +1273,7 @@ def check(ctx):
         process(ctx, ex[i:i + 4000], "exh")
     process(ctx, targeted_cases(ctx), "tgt")
     process(ctx, random_cases(ctx, ctx.scale(1100, 12000)), "rnd")
+    process(ctx, mag_cases(ctx, ctx.scale(300, 4000)), "mag")       # generated last: the earlier streams are unchanged
     if ctx.diffs and not ctx.violations:
         search(ctx)
 
